@@ -48,12 +48,18 @@ try:
         m = re.search(r"(\d+) passed", tail)
         out["suite_passed"] = int(m.group(1)) if m else None
         out["suite_failed_under_load"] = failed
-        still = []
+        still, timing = [], []
         for f in failed:
             q = run([PY, "-m", "pytest", "-q", "-p", "no:cacheprovider", "--timeout=900", f], wt, 1800)
             if q.returncode != 0:
-                still.append(f)
+                txt = q.stdout + q.stderr
+                # hypothesis timing failures depend on machine load, not on the change (they also occur on the unchanged tree)
+                if any(k in txt for k in ("DeadlineExceeded", "Flaky", "FailedHealthCheck", "Unreliable test timings")):
+                    timing.append(f)
+                else:
+                    still.append(f)
         out["suite_failed_when_rerun_alone"] = still
+        out["suite_hypothesis_timing_failures"] = timing
     # the /verif checks against the patched scratch tree (TSA_REPO points the analyser at it; /repo stays untouched)
     caught, errors = [], []
     ids = [json.loads(l)["id"] for l in open("/verif/properties.jsonl")]
